@@ -23,15 +23,22 @@ func c03Gen(r *RNG, tier string) []json.RawMessage {
 	// one case per (table, decoration): shards are evaluated in parallel
 	var curHooks []HookSpec
 	var curNest *NestSpec
+	var curOthers []int
+	var curRenderOthers bool
+	var curLong []LongRow
 	add := func(t TableSpec, decs []DecSpec) {
 		for _, d := range decs {
-			out = append(out, mustJSON(TextSpec{Table: t, Decs: []DecSpec{d}, Hooks: curHooks, Nest: curNest}))
+			out = append(out, mustJSON(TextSpec{Table: t, Decs: []DecSpec{d}, Hooks: curHooks, Nest: curNest, Others: curOthers, RenderOthers: curRenderOthers, Long: curLong}))
 		}
 	}
 	withCustom := func(n int) []DecSpec {
 		ds := append([]DecSpec{}, reg...)
 		for i := 0; i < n; i++ {
-			ds = append(ds, randDecoration(r))
+			if r.Pct(35) {
+				ds = append(ds, derivedDecoration(r, reg))
+			} else {
+				ds = append(ds, randDecoration(r))
+			}
 		}
 		return ds
 	}
@@ -72,7 +79,7 @@ func c03Gen(r *RNG, tier string) []json.RawMessage {
 		add(TableSpec{Header: &h, Rows: []RowSpec{{Cells: []ItemSpec{Str("x")}}}}, []DecSpec{{Name: "no-such-decoration"}})
 	}
 	// random grids up to 4 columns x 5 rows: ragged and zero-cell rows, header absent / shorter / longer, separators anywhere
-	n, nc := 260, 1
+	n, nc := 200, 1
 	if tier == "thorough" {
 		n, nc = 6000, 3
 	}
@@ -89,6 +96,14 @@ func c03Gen(r *RNG, tier string) []json.RawMessage {
 			mutateSameSize(&ts, 60, r)
 		}
 		curHooks, curNest = nil, nil
+		curOthers, curRenderOthers = nil, false
+		if r.Pct(10) {
+			// other wrappers made on the same table after the text wrapper
+			for k := 1 + r.Intn(2); k > 0; k-- {
+				curOthers = append(curOthers, 1+r.Intn(5))
+			}
+			curRenderOthers = r.Bool()
+		}
 		if r.Pct(15) {
 			curHooks = randHooks(r) // the application's own callbacks, some of them failing
 		}
@@ -97,6 +112,7 @@ func c03Gen(r *RNG, tier string) []json.RawMessage {
 		}
 		add(ts, withCustom(nc))
 		curHooks, curNest = nil, nil
+		curOthers, curRenderOthers = nil, false
 	}
 	// a fixed grid in which every cell is the widest of its column or the
 	// tallest of its row somewhere: (a) under each kind of user callback
@@ -144,6 +160,82 @@ func c03Gen(r *RNG, tier string) []json.RawMessage {
 		}
 	}
 	curNest = nil
+	// (d) the same table wrapped by other renderers (and by a second text
+	// wrapper) AFTER the text wrapper was made, rendered or not before it
+	for i, kinds := range [][]int{{1}, {2}, {3}, {4}, {5}, {1, 5}, {5, 1}, {1, 2, 3, 4, 5}} {
+		for _, ro := range []bool{false, true} {
+			curOthers, curRenderOthers = kinds, ro
+			add(fixedGrid(), []DecSpec{reg[i%len(reg)], {Name: "none"}})
+			ts := fixedGrid()
+			ts.Stages = []int{1}
+			add(ts, []DecSpec{reg[(i+1)%len(reg)]})
+		}
+	}
+	curOthers, curRenderOthers = nil, false
+	// (e) custom decorations DERIVED from each registered one: some fields
+	// cleared (and a key glyph changed), then Populate again
+	for bi, base := range reg {
+		if base.Name == "none" {
+			continue
+		}
+		for ci, clear := range [][]string{
+			{"VHeader", "VBodyBorder"},
+			{"HOuter", "HRule"},
+			{"TopLeft", "TopRight", "BottomLeft", "BottomRight"},
+			{"HBCross", "HBLeft", "HBRight", "LeftBodyRule", "RightBodyRule"},
+			{"TopDown", "VBorder", "HOuter", "HRule", "VHeader", "VBodyBorder", "VBodyInner", "TopLeft", "TopRight", "BottomLeft", "BottomRight",
+				"LeftBodyRule", "RightBodyRule", "HTopDown", "BTopDown", "BBottomUp", "HBCross", "HBLeft", "HBRight"},
+		} {
+			ds := DecSpec{Custom: true, Base: base.Name, Fields: map[string]string{}}
+			for _, f := range clear {
+				ds.Fields[f] = ""
+			}
+			if (bi+ci)%2 == 0 {
+				ds.Fields["VBorder"] = "#"
+			}
+			add(fixedGrid(), []DecSpec{ds})
+		}
+	}
+	// (g) a row holding more cells than the table has columns: appended to the
+	// table, given its cells, attached to a second table and extended there by
+	// one or two cells, narrow or wide - with and without headers, other rows,
+	// under several decorations; the extra cells are not shown and widen nothing
+	for li, extra := range [][]string{{"e"}, {"an extra cell much wider than any column"}, {"x", "yy"}, {"日本語日本語日本語", "tall\nextra\ncell"}, {""}} {
+		for ci, cells := range [][]string{{}, {"a"}, {"first", "second\nline"}} {
+			for hv := 0; hv < 3; hv++ {
+				lr := LongRow{}
+				for _, c := range cells {
+					lr.Cells = append(lr.Cells, Str(c))
+				}
+				for _, e := range extra {
+					lr.Extra = append(lr.Extra, Str(e))
+				}
+				curLong = []LongRow{lr}
+				ts := TableSpec{}
+				switch hv {
+				case 1: // a header exactly as wide as the row was before it was extended (or one column)
+					h := []ItemSpec{Str("h1"), Str("h2")}[:1+ci%2]
+					ts.Header = &h
+					ts.Rows = []RowSpec{{Cells: []ItemSpec{Str("b")}}, {Sep: true}}
+				case 2: // other rows only, one of them shorter
+					ts.Rows = []RowSpec{{Cells: []ItemSpec{Str("p"), Str("q")}, How: 1}, {Cells: []ItemSpec{}}}
+				}
+				if hv == 0 && ci == 2 && li%2 == 0 {
+					curLong = append(curLong, LongRow{Cells: []ItemSpec{Str("z")}, Extra: []ItemSpec{Str("w"), Str("wide wide wide")}})
+				}
+				add(ts, []DecSpec{reg[(li+ci+hv)%len(reg)], {Name: "none"}})
+			}
+		}
+	}
+	curLong = nil
+	// (f) few display cells, very many bytes: cluster-dense cells in narrow
+	// tables (one and two columns), under every registered decoration
+	for i, s := range denseTexts() {
+		add(TableSpec{Rows: []RowSpec{{Cells: []ItemSpec{Str(s)}}}}, reg)
+		hd := []ItemSpec{Str(s), Str("")}
+		add(TableSpec{Header: &hd, Rows: []RowSpec{{Cells: []ItemSpec{Str(""), Str(s)}}, {Cells: []ItemSpec{Str(s)}, How: 1}}},
+			[]DecSpec{reg[i%len(reg)], reg[(i+3)%len(reg)]})
+	}
 	{
 		ts := fixedGrid()
 		mutateSameSize(&ts, 100, nil)
@@ -248,6 +340,8 @@ func init() {
 			"(decoration.RegisteredDecorationNames, fields dumped by reflection at run time) and under random custom decorations (random subset of the 22 fields, then Populate; some from NoBox(), some left incomplete); " +
 			"every shape with header in {none,0,1,2 cells} and up to 2 rows over {separator,0,1,2 cells}; every atom of a hostile alphabet (ASCII, CJK, full-width, combining incl. leading, ZWSP, ZWJ, VS16, ZWJ emoji, flags, tab, CR, escapes, multi-line, trailing newlines, invalid UTF-8) in first/middle/last column of a fixed grid; random grids to 4x5; " +
 			"multi-step histories through ONE reused wrapper (TableSpec.BuildRenderW: renders at Stages, then shape-preserving changes - cells appended with Row.Add to ragged rows already attached, a second AddHeaders of the same count - then the judged render), systematically on a fixed grid and on a quarter of the random grids; early column properties, rows attached twice (enrichSpec); sizes beyond small thresholds: cells of 63..300 display cells (ASCII, double-width, mixed) next to short / empty / missing cells, cells of 17..130 lines, 17..130 columns, 33..130 rows; " +
+			"custom decorations DERIVED from every registered one (fields cleared, a key glyph changed, Populate again) and what Populate promises judged on the decoration handed back (complete, nothing set was changed); cluster-dense cells (long ZWJ / tag / keycap sequences, 8..40 stacked marks or zero-width characters: far more than 4 bytes per display cell) in one- and two-column tables; other wrappers (markdown, csv, html, json, a second text wrapper) made on the same table after the text wrapper, rendered or not before it; " +
+			"rows holding more cells than the table has columns (t.AppendNewRow, Add, other.AddRow(row), Add one or two extra cells - narrow, wide, multi-line, empty - with and without headers and other rows): the extra cells are not shown and widen nothing; " +
 			"the application's own property callbacks (every time x target on the table, failing on every / every other / no call, some setting a property of their own) registered before the build and before texttable.Wrap - the output must not depend on them; another independent table rendered from inside the writer's Write while the judged render is writing (overlapping renders, sequentially); render, same-size mutations (same width on every line, same line count, different bytes) of mutable items + Update through CellAt, render again through the same wrapper; TableSpec.BuildRenderW with StageFaults / FinalVia / FaultAt / Scribble / PropOps via enrichSpec; " +
 			"the expected view is computed from the SPEC alone (TableSpec.SpecView: texts, per-line measured sizes, shape, properties), not read back from the table under test; " +
 			"a case (one table x its decorations) is non-trivial when the table has at least one column; distinct = distinct (oracle table, view, decorations, outcomes); " +
